@@ -63,6 +63,8 @@ CONSTANTS
   ParamOwner,   \* the account the ACL names as owner of the pos parameters
   ParamVals,    \* values offered for pos/MaxValidators by "setparam" transactions
   MaxExports,   \* how many export/import restarts the environment may take
+  EvHBacks,     \* how far behind the current height the infraction a piece of evidence reports lies (negative: ahead)
+  EvTwo,        \* TRUE: a block may also carry two pieces of evidence (against different validators)
   SecpUsers,    \* users whose key is of a type the chain's consensus parameters do not admit for validators
   MaxCrashes    \* how many times the node may crash (lose everything not committed) and be reopened
 
@@ -606,8 +608,10 @@ VoteChoices(s) ==
 \* the EvUnknown switch of the environment also offers)
 EvChoices(s) ==
   IF ~EvOn THEN {<< >>}
-  ELSE {<< >>} \cup {<< [v |-> v, age |-> ag, hback |-> 1, power |-> p] >> :
-                       v \in (IF EvUnknown THEN Users ELSE s.pkrel), ag \in {0, MaxEvAge, MaxEvAge + 1}, p \in EvPowers}
+  ELSE LET one == {[v |-> v, age |-> ag, hback |-> hb, power |-> p] :
+                     v \in (IF EvUnknown THEN Users ELSE s.pkrel), ag \in {0, MaxEvAge, MaxEvAge + 1}, p \in EvPowers, hb \in EvHBacks}
+       IN {<< >>} \cup {<< e >> : e \in one}
+          \cup (IF EvTwo THEN {<< q[1], q[2] >> : q \in {r \in one \X one : r[1].v # r[2].v /\ r[2].age = 0 /\ r[2].hback = 1}} ELSE {})
 
 TxChoices(s) ==
   LET T(k, f, t, x, fe, b) == [a |-> "Tx", kind |-> k, from |-> f, to |-> t, amt |-> x, fee |-> fe, bad |-> b]
